@@ -206,12 +206,13 @@ def run_impl(p):
             # sliced from) decodes to afterwards
             ref = r.to_array().copy()
             for get in (lambda: r.to_array(), lambda: np.asarray(r), lambda: r[1:].to_array() if len(arr) > 1 else r.to_array(),
-                        lambda: r[::1].to_array()):
+                        lambda: r[::1].to_array(), lambda: r[::2].to_array(), lambda: r[::3].to_array(), lambda: r[::-1].to_array(),
+                        lambda: r[0::len(arr) + 1].to_array()):
                 d = get()
                 if isinstance(d, np.ndarray) and d.flags.writeable and d.size:
                     d[...] = d[::-1].copy() if d.size > 1 and not np.array_equal(d, d[::-1], equal_nan=True) else np.zeros(1, dtype=d.dtype)[0] + (d[0] == 0)
                 again = r.to_array()
-                if not np.array_equal(again.view(np.uint8), ref.view(np.uint8)):
+                if not np.array_equal(again.view(np.uint8), ref.view(np.uint8)) or len(r) != len(arr) or int(r.ends[-1]) != len(arr):
                     return False
             return True
         o["decode_independent"] = guarded(lambda: canon(independent()))
